@@ -14,13 +14,27 @@ package searcher
 //@ ghostfield search.DocumentMatch.cowner search.Searcher
 //@ uf childIdx(sr search.Searcher) int
 //@ spec conjShape(s *ConjunctionSearcher) bool = len(s.currs) == len(s.searchers) && 0 <= s.maxIDIdx && forall(k, 0, len(s.searchers), s.searchers[k] != nil && s.searchers[k] != s && childIdx(s.searchers[k]) == k)
-//@ spec slotOK(s *ConjunctionSearcher, k int) bool = implies(s.currs[k] != nil, s.searchers[k].started && !s.searchers[k].done && s.searchers[k].last == dmKey(s.currs[k]) && s.currs[k].cowner == s.searchers[k]) && \
+//@ spec slotOK(s *ConjunctionSearcher, k int) bool = implies(s.currs[k] != nil, s.searchers[k].started && !s.searchers[k].done && s.searchers[k].last == dmKey(s.currs[k]) && s.currs[k].cowner == s.searchers[k] && mset(s.searchers[k], dmKey(s.currs[k]))) && \
 //@     implies(s.currs[k] == nil, s.searchers[k].done)
 // before the first call the children have not been touched
 //@ spec conjFresh(s *ConjunctionSearcher) bool = forall(k, 0, len(s.searchers), s.currs[k] == nil && !s.searchers[k].started && !s.searchers[k].done)
 // every child is beyond the last id this searcher returned
 //@ spec conjAhead(s *ConjunctionSearcher) bool = forall(k, 0, len(s.searchers), implies(s.started && s.currs[k] != nil, dmKey(s.currs[k]) > s.last))
 //@ spec conjInv(s *ConjunctionSearcher) bool = conjShape(s) && implies(!s.initialized, conjFresh(s) && !s.started) && implies(s.initialized, forall(k, 0, len(s.searchers), slotOK(s, k)) && conjAhead(s))
+
+// ---- set level (C02): a conjunction matches the ids that all its children match ----
+// (mset is the set a searcher matches, see search/zz_verif_searcher.go; for a conjunction it is, by
+// the meaning of the query, the intersection of the children's sets)
+//@ spec conjMatch(s *ConjunctionSearcher, x string) bool = forall(k, 0, len(s.searchers), mset(s.searchers[k], x))
+// lb: a lower bound set by Advance for the duration of its call (ids below it are skipped on purpose)
+//@ ghostfield ConjunctionSearcher.lbset bool
+//@ ghostfield ConjunctionSearcher.lb string
+// x is still to be delivered
+//@ spec conjTodo(s *ConjunctionSearcher, x string) bool = conjMatch(s, x) && unconsumed(s.started, s.last, x) && implies(s.lbset, x >= s.lb)
+// nothing still to be delivered (at or above b) lies before any child's position; an exhausted child
+// means nothing is left
+//@ spec conjRge(s *ConjunctionSearcher, b string) bool = all(x, string, implies(conjTodo(s, x) && x >= b, forall(k, 0, len(s.searchers), s.currs[k] != nil && x >= dmKey(s.currs[k]))))
+//@ spec conjR(s *ConjunctionSearcher) bool = all(x, string, implies(conjTodo(s, x), forall(k, 0, len(s.searchers), s.currs[k] != nil && x >= dmKey(s.currs[k]))))
 
 //@ spec conjLoop(ctx *search.SearchContext, s *ConjunctionSearcher) bool = s.initialized && conjShape(s) && poolApart(ctx, s) && forall(k, 0, len(s.searchers), slotOK(s, k)) && conjAhead(s)
 // the pool's free list and the currs array are different arrays (both hold *DocumentMatch)
@@ -38,6 +52,9 @@ package searcher
 //@   ensures poolApart(ctx, s) && conjShape(s) && s.currs == old(s.currs) && s.searchers == old(s.searchers) && forall(k, 0, len(s.searchers), implies(k != i, s.currs[k] == old(s.currs[k])))
 //@   ensures implies(err == nil, forall(k, 0, len(s.searchers), slotOK(s, k)) && implies(s.currs[i] != nil, dmKey(s.currs[i]) >= idKey(ID)))
 //@   ensures forall(k, 0, len(s.searchers), implies(k != i && s.currs[k] != nil, dmKey(s.currs[k]) == old(dmKey(s.currs[k]))))
+// set level: what is still to be delivered at or above the target stays at or after every child
+//@   ensures implies(err == nil && old(conjRge(s, idKey(ID))), conjRge(s, idKey(ID)))
+//@   ensures s.lbset == old(s.lbset) && s.lb == old(s.lb) && s.started == old(s.started) && s.last == old(s.last) && s.done == old(s.done)
 
 // initSearchers: every child is moved to its first match
 //@ func ConjunctionSearcher.initSearchers
